@@ -24,6 +24,7 @@ fn class_name(c: EvilClass) -> &'static str {
         EvilClass::ForbiddenInSpace => "forbidden-in-packet-space",
         EvilClass::BadValue => "bad-value",
         EvilClass::Control => "control",
+        EvilClass::AfterStopSending => "after-stop-sending",
     }
 }
 
@@ -136,11 +137,24 @@ pub fn evil_scenario() -> impl Strategy<Value = Scenario> {
         Just(EvilClass::ForbiddenInSpace),
         Just(EvilClass::BadValue),
         Just(EvilClass::Control),
+        Just(EvilClass::AfterStopSending),
     ];
     (gen::scenario(CFG_EVIL), any::<bool>(), class, any::<u8>(), 0u8..12).prop_map(|(mut sc, client, class, variant, after)| {
         sc.evil = Some(EvilCfg { client, class, variant, after: if matches!(class, EvilClass::ForbiddenInSpace) { 0 } else { after } });
         sc.net.delay_us = sc.net.delay_us.min(20_000);
         sc.net.max_udp_payload = 65_000;
+        if matches!(class, EvilClass::AfterStopSending) {
+            // the first stream is opened by the evil side, carries more than the victim's reader wants (sent slowly, so that the
+            // stream is still incomplete), and the victim's application stops it after a few bytes
+            for c in &mut sc.clients {
+                if let Some(s) = c.conn.streams.first_mut() {
+                    s.initiator = if client { Side::Client } else { Side::Server };
+                    let n = 1 + (variant as u64 * 37) % 3000;
+                    s.fwd_reader = ReaderScript { start_delay_us: 0, pause_us: 0, vectored: 0, stop_after: Some((n, 7)) };
+                    s.fwd.steps = vec![WStep::Send(4_000), WStep::PauseUs(200_000), WStep::Send(4_000), WStep::PauseUs(200_000), WStep::Send(4_000), WStep::PauseUs(200_000)];
+                }
+            }
+        }
         for c in &mut sc.clients {
             c.conn.close_code = None;
             // make sure both sides have something to send for a while
